@@ -263,6 +263,8 @@ impl<S: Send + 'static> NodeListener<S> {
                 while cache_running.load(Ordering::Relaxed) {
                     network_processor.process_poll_event(Some(*SAMPLING_TIMEOUT), |net_event| {
                         log::trace!("Cached {:?}", net_event);
+                        #[cfg(message_io_verif)]
+                        crate::verif::trace("cache_push", cache.len() as u64);
                         cache.push_back(net_event.into());
                     });
                 }
@@ -301,10 +303,16 @@ impl<S: Send + 'static> NodeListener<S> {
 
         // Dispatch the catched events first.
         while let Some(event) = cache.pop_front() {
+            #[cfg(message_io_verif)]
+            crate::verif::trace("replay_pop", cache.len() as u64);
             // The node could be already stopped, even before calling this function.
             if !self.handler.is_running() {
+                #[cfg(message_io_verif)]
+                crate::verif::trace("replay_check", 0);
                 return;
             }
+            #[cfg(message_io_verif)]
+            crate::verif::trace("replay_check", 1);
             let net_event = event.borrow();
             log::trace!("Read from cache {:?}", net_event);
             event_callback(NodeEvent::Network(net_event));
@@ -339,7 +347,14 @@ impl<S: Send + 'static> NodeListener<S> {
                             {
                                 let mut event_callback =
                                     multiplexed.0.lock().expect(OTHER_THREAD_ERR);
+                                #[cfg(message_io_verif)]
+                                let _unlock = {
+                                    crate::verif::trace("lock", 0);
+                                    crate::verif::OnDrop("unlock")
+                                };
                                 if handler.is_running() {
+                                    #[cfg(message_io_verif)]
+                                    crate::verif::trace("check", 1);
                                     event_callback(NodeEvent::Signal(signal));
                                 }
                             }
@@ -351,7 +366,14 @@ impl<S: Send + 'static> NodeListener<S> {
             while self.handler.is_running() {
                 network_processor.process_poll_event(Some(*SAMPLING_TIMEOUT), |net_event| {
                     let mut event_callback = multiplexed.lock().expect(OTHER_THREAD_ERR);
+                    #[cfg(message_io_verif)]
+                    let _unlock = {
+                        crate::verif::trace("lock", 0);
+                        crate::verif::OnDrop("unlock")
+                    };
                     if self.handler.is_running() {
+                        #[cfg(message_io_verif)]
+                        crate::verif::trace("check", 1);
                         event_callback(NodeEvent::Network(net_event));
                     }
                 });
@@ -416,18 +438,33 @@ impl<S: Send + 'static> NodeListener<S> {
                     let net_event = event.borrow();
                     log::trace!("Read from cache {:?}", net_event);
                     let mut event_callback = multiplexed.lock().expect(OTHER_THREAD_ERR);
+                    #[cfg(message_io_verif)]
+                    let _unlock = {
+                        crate::verif::trace("replay_pop", cache.len() as u64);
+                        crate::verif::trace("lock", 0);
+                        crate::verif::OnDrop("unlock")
+                    };
                     // Checked once the lock is acquired: the node could have been stopped before
                     // calling this function or meanwhile by the signal thread.
                     if !handler.is_running() {
                         return;
                     }
+                    #[cfg(message_io_verif)]
+                    crate::verif::trace("check", 1);
                     event_callback(NodeEvent::Network(net_event));
                 }
 
                 while handler.is_running() {
                     network_processor.process_poll_event(Some(*SAMPLING_TIMEOUT), |net_event| {
                         let mut event_callback = multiplexed.lock().expect(OTHER_THREAD_ERR);
+                        #[cfg(message_io_verif)]
+                        let _unlock = {
+                            crate::verif::trace("lock", 0);
+                            crate::verif::OnDrop("unlock")
+                        };
                         if handler.is_running() {
+                            #[cfg(message_io_verif)]
+                            crate::verif::trace("check", 1);
                             event_callback(NodeEvent::Network(net_event));
                         }
                     });
@@ -444,7 +481,14 @@ impl<S: Send + 'static> NodeListener<S> {
                 while handler.is_running() {
                     if let Some(signal) = signal_receiver.receive_timeout(*SAMPLING_TIMEOUT) {
                         let mut event_callback = multiplexed.lock().expect(OTHER_THREAD_ERR);
+                        #[cfg(message_io_verif)]
+                        let _unlock = {
+                            crate::verif::trace("lock", 0);
+                            crate::verif::OnDrop("unlock")
+                        };
                         if handler.is_running() {
+                            #[cfg(message_io_verif)]
+                            crate::verif::trace("check", 1);
                             event_callback(NodeEvent::Signal(signal));
                         }
                     }
